@@ -11,6 +11,7 @@ pub mod c06;
 pub mod c11;
 pub mod c13;
 pub mod c15;
+pub mod c17;
 pub mod c18;
 pub mod c19;
 pub mod c20;
@@ -63,6 +64,7 @@ simple_checks! {
     "C06" => c06,
     "C13" => c13,
     "C15" => c15,
+    "C17" => c17,
     "C18" => c18,
     "C19" => c19,
     "C20" => c20,
